@@ -20,7 +20,11 @@ EXPLANATION = ('HMesh.refine is verified for every number of levels, every state
 ASSUMPTIONS = ['cells are an uninterpreted sort with parent : Cell -> Cell; cell_children(lv, C) = {c : parent(c) in C} is the contract used inside '
                'HMesh.refine and is verified separately on integer tuples for dim 1..3 (one cell)',
                'basis functions are an uninterpreted sort with a support relation insupp(level, f, cell), supports non-empty; TPMesh.supported_in / '
-               'TPMesh.support are used through their contracts over insupp (assumed; exercised natively by the bounded tier)',
+               'TPMesh.support are used through their contracts over insupp.  Those contracts are verified separately on integer tuples for '
+               'dim 1..3 (support = union of boxes of the per-axis cell ranges; supported_in = the functions whose box meets the cells, stated '
+               'over the SAME relation) given the per-axis lemma proved for _compute_supported_functions (cell k carries exactly the functions '
+               'j with lo_j <= k < hi_j, for monotone range tables); that TPMesh.__init__ builds suppfunc from meshsupp with that function and '
+               'that mesh_support_idx_all yields monotone in-range tables are not under contract (bounded tier)',
                'marked is a total map level -> set (absent key = empty set); the marks passed by the user are active cells; levels already exist '
                '(ensure_levels no-op)',
                'HSpace.refine is verified in two parts that meet at the statement after the marking block: the marking-pass contract (stops there) and '
@@ -31,7 +35,8 @@ ASSUMPTIONS = ['cells are an uninterpreted sort with parent : Cell -> Cell; cell
 
 
 def contracts(tier):
-    return hierarchical.CONTRACTS
+    from contracts import hier_support
+    return hierarchical.CONTRACTS + hier_support.CONTRACTS
 
 
 def extra_obligations(tier):
